@@ -1,0 +1,242 @@
+//go:build verif
+
+package dkg_proposal_fsm
+
+// Contracts for the DKG-proposal actions (checked by /verif/gocv; comment-only file).
+// Written by /verif/tools/gen_dkg_contracts.py from one template per action shape.
+//
+//@ spec func dp(m *DKGProposalFSM) *internal.DKGConfirmation = m.payload.DKGProposalPayload
+//@ spec func wfDkg(m *DKGProposalFSM) bool = m != nil && m.payload != nil && wfDkgQ(m.payload)
+//@ spec func dkgExpired(m *DKGProposalFSM) bool = timeBefore(dp(m).ExpiresAt, dp(m).UpdatedAt)
+//@ spec func dkgCnt(p *internal.DumpedMachineStatePayload, w internal.DKGParticipantStatus) int = cntSt(dom(dkgQ(p)), vals(dkgQ(p)), fieldmap(internal.DKGProposalParticipant.Status), w)
+//@ spec func dkgCntOldQ(p *internal.DumpedMachineStatePayload, w internal.DKGParticipantStatus) int = cntSt(old(dom(dkgQ(p))), old(vals(dkgQ(p))), fieldmap(internal.DKGProposalParticipant.Status), w)
+//@ spec func dkgPhaseOk(p *internal.DumpedMachineStatePayload, a internal.DKGParticipantStatus, b internal.DKGParticipantStatus) bool = forall k int :: k in dkgQ(p) ==> dkgQ(p)[k].Status == a || dkgQ(p)[k].Status == b
+//@ spec func dkgAny(p *internal.DumpedMachineStatePayload, w internal.DKGParticipantStatus) bool = exists k int :: (k in dkgQ(p)) && dkgQ(p)[k].Status == w
+//
+// nothing observable about the DKG round changed
+//@ spec func dkgViewsSame(m *DKGProposalFSM) bool = unchanged("*internal.DKGProposalParticipant", "*internal.DKGConfirmation", "*internal.SignatureConfirmation", "*internal.DumpedMachineStatePayload", "map[int]*internal.DKGProposalParticipant", "[]byte")
+//
+// only the record of participant id (and the round's UpdatedAt / PubPolyBz) may differ
+//@ spec func dkgOthersSame(m *DKGProposalFSM, id int) bool = (forall q *internal.DKGProposalParticipant :: q != old(dkgQ(m.payload)[id]) ==> q.Status == old(q.Status) && q.DkgCommit == old(q.DkgCommit) && q.DkgDeal == old(q.DkgDeal) && q.DkgResponse == old(q.DkgResponse) && q.DkgMasterKey == old(q.DkgMasterKey) && q.Error == old(q.Error) && q.Username == old(q.Username) && q.DkgPubKey == old(q.DkgPubKey)) && dkgQ(m.payload) == old(dkgQ(m.payload)) && dom(dkgQ(m.payload)) == old(dom(dkgQ(m.payload))) && vals(dkgQ(m.payload)) == old(vals(dkgQ(m.payload))) && unchanged("*internal.DumpedMachineStatePayload", "*internal.SignatureConfirmation") && dp(m).ExpiresAt == old(dp(m).ExpiresAt) && dp(m).CreatedAt == old(dp(m).CreatedAt)
+
+
+// ---- phase: Commit
+//@ spec func isCommitReq(args []interface{}) bool = len(args) == 1 && istype(args[0], requests.DKGProposalCommitConfirmationRequest)
+//@ spec func rqCommit(args []interface{}) requests.DKGProposalCommitConfirmationRequest = args[0].(requests.DKGProposalCommitConfirmationRequest)
+
+//@ func (*DKGProposalFSM).actionCommitConfirmationReceived
+//@   safety C18
+//@   requires wfDkg(m) && injDkg(dkgQ(m.payload))
+//@   ensures[C05.count] err == nil ==> dkgCntOldQ(m.payload, internal.CommitConfirmed) == old(dkgCnt(m.payload, internal.CommitConfirmed)) + 1 && len(dkgQ(m.payload)) == old(len(dkgQ(m.payload)))
+//@   ensures[C05.phasekeep] err == nil && old(dkgPhaseOk(m.payload, internal.CommitAwaitConfirmation, internal.CommitConfirmed)) ==> dkgPhaseOk(m.payload, internal.CommitAwaitConfirmation, internal.CommitConfirmed) && !dkgAny(m.payload, internal.CommitConfirmationError)
+//@   ensures[C05.reject,C18.reject] err != nil ==> dkgViewsSame(m)
+//@   ensures[C05.shape] outEvent == "" && response == nil
+//@   ensures[C05.once] err == nil ==> isCommitReq(args) && old(rqCommit(args).ParticipantId in dkgQ(m.payload)) && old(dkgQ(m.payload)[rqCommit(args).ParticipantId].Status) == internal.CommitAwaitConfirmation && dkgQ(m.payload)[rqCommit(args).ParticipantId].Status == internal.CommitConfirmed
+//@   ensures[C05.data,C02.data] err == nil ==> len(rqCommit(args).Commit) > 0 && content(dkgQ(m.payload)[rqCommit(args).ParticipantId].DkgCommit) == old(content(rqCommit(args).Commit)) && fresh(dkgQ(m.payload)[rqCommit(args).ParticipantId].DkgCommit)
+//@   ensures[C05.keepdata] err == nil ==> dkgQ(m.payload)[rqCommit(args).ParticipantId].DkgDeal == old(dkgQ(m.payload)[rqCommit(args).ParticipantId].DkgDeal) && dkgQ(m.payload)[rqCommit(args).ParticipantId].DkgResponse == old(dkgQ(m.payload)[rqCommit(args).ParticipantId].DkgResponse) && dkgQ(m.payload)[rqCommit(args).ParticipantId].DkgMasterKey == old(dkgQ(m.payload)[rqCommit(args).ParticipantId].DkgMasterKey)
+//@   ensures[C05.frame,C10.frame] err == nil ==> dkgOthersSame(m, rqCommit(args).ParticipantId) && unchanged("[]byte")
+
+
+//@ func (*DKGProposalFSM).actionValidateDkgProposalAwaitCommits
+//@   safety C18
+//@   requires wfDkg(m) && dkgQ(m.payload) != nil && injDkg(dkgQ(m.payload))
+//@   ensures[C05.noerr] err == nil
+//@   ensures[C05.outs] outEvent == "" || outEvent == eventDKGCommitsConfirmationCancelByTimeoutInternal || outEvent == eventDKGCommitsConfirmationCancelByErrorInternal || outEvent == eventDKGCommitsConfirmedInternal
+//@   ensures[C05.cancel.only] outEvent == eventDKGCommitsConfirmationCancelByErrorInternal ==> old(dkgAny(m.payload, internal.CommitConfirmationError))
+//@   ensures[C05.timeout] old(dkgExpired(m)) ==> outEvent == eventDKGCommitsConfirmationCancelByTimeoutInternal && response == nil && dkgViewsSame(m)
+//@   ensures[C05.cancel] !old(dkgExpired(m)) && old(dkgAny(m.payload, internal.CommitConfirmationError)) ==> outEvent == eventDKGCommitsConfirmationCancelByErrorInternal && response == nil && dkgViewsSame(m)
+//@   ensures[C05.wait] !old(dkgExpired(m)) && !old(dkgAny(m.payload, internal.CommitConfirmationError)) && old(dkgCnt(m.payload, internal.CommitConfirmed)) < old(len(dkgQ(m.payload))) ==> outEvent == "" && response == nil && dkgViewsSame(m)
+//@   ensures[C05.advance] !old(dkgExpired(m)) && !old(dkgAny(m.payload, internal.CommitConfirmationError)) && old(dkgCnt(m.payload, internal.CommitConfirmed)) == old(len(dkgQ(m.payload))) ==> outEvent == eventDKGCommitsConfirmedInternal
+//@   ensures[C05.advanced.status] outEvent == eventDKGCommitsConfirmedInternal ==> (forall k int :: k in dkgQ(m.payload) ==> dkgQ(m.payload)[k].Status == internal.DealAwaitConfirmation)
+//@   ensures[C05.phasekeep] outEvent != eventDKGCommitsConfirmedInternal && old(dkgPhaseOk(m.payload, internal.CommitAwaitConfirmation, internal.CommitConfirmed)) ==> dkgPhaseOk(m.payload, internal.CommitAwaitConfirmation, internal.CommitConfirmed)
+//@   ensures[C05.keep] unchanged("*internal.DumpedMachineStatePayload", "*internal.DKGConfirmation", "*internal.SignatureConfirmation", "map[int]*internal.DKGProposalParticipant", internal.DKGProposalParticipant.DkgCommit, internal.DKGProposalParticipant.DkgDeal, internal.DKGProposalParticipant.DkgResponse, internal.DKGProposalParticipant.DkgMasterKey, internal.DKGProposalParticipant.Error, internal.DKGProposalParticipant.Username, "[]byte")
+//@   loop 0 invariant isContainsError == (exists k int :: (k in $visited) && dkgQ(m.payload)[k].Status == internal.CommitConfirmationError)
+//@   loop 0 invariant unconfirmedParticipants == len(dkgQ(m.payload)) - cntSt($visited, vals(dkgQ(m.payload)), fieldmap(internal.DKGProposalParticipant.Status), internal.CommitConfirmed)
+//@   loop 1 invariant forall k int :: k in $visited ==> dkgQ(m.payload)[k].Status == internal.DealAwaitConfirmation
+//@   loop 1 invariant unchanged("*internal.DumpedMachineStatePayload", "*internal.DKGConfirmation", "*internal.SignatureConfirmation", "map[int]*internal.DKGProposalParticipant", internal.DKGProposalParticipant.DkgCommit, internal.DKGProposalParticipant.DkgDeal, internal.DKGProposalParticipant.DkgResponse, internal.DKGProposalParticipant.DkgMasterKey, internal.DKGProposalParticipant.Error, internal.DKGProposalParticipant.Username, "[]byte")
+//@   ensures[C08.resp.ordered] outEvent == eventDKGCommitsConfirmedInternal ==> istype(response, responses.DKGProposalCommitParticipantResponse) && len(response.(responses.DKGProposalCommitParticipantResponse)) <= len(dkgQ(m.payload)) && (forall a int, b int :: 0 <= a && a < b && b < len(response.(responses.DKGProposalCommitParticipantResponse)) ==> response.(responses.DKGProposalCommitParticipantResponse)[a].ParticipantId < response.(responses.DKGProposalCommitParticipantResponse)[b].ParticipantId)
+//@   loop 2 invariant len(responseData) <= $i + 1 && len($range) == len(dkgQ(m.payload))
+//@   loop 2 invariant forall a int :: 0 <= a && a < len(responseData) ==> responseData[a] != nil && ($i >= 0 && responseData[a].ParticipantId <= $range[$i].ParticipantID)
+//@   loop 2 invariant forall a int, b int :: 0 <= a && a < b && b < len(responseData) ==> responseData[a].ParticipantId < responseData[b].ParticipantId
+//@   loop 2 invariant forall a int, b int :: 0 <= a && a < b && b < len($range) ==> $range[a].ParticipantID < $range[b].ParticipantID
+//@   loop 2 invariant forall k int :: k in dkgQ(m.payload) ==> dkgQ(m.payload)[k].Status == internal.DealAwaitConfirmation
+//@   loop 2 invariant unchanged("*internal.DumpedMachineStatePayload", "*internal.DKGConfirmation", "*internal.SignatureConfirmation", "map[int]*internal.DKGProposalParticipant", internal.DKGProposalParticipant.DkgCommit, internal.DKGProposalParticipant.DkgDeal, internal.DKGProposalParticipant.DkgResponse, internal.DKGProposalParticipant.DkgMasterKey, internal.DKGProposalParticipant.Error, internal.DKGProposalParticipant.Username, "[]byte")
+
+
+// ---- phase: Deal
+//@ spec func isDealReq(args []interface{}) bool = len(args) == 1 && istype(args[0], requests.DKGProposalDealConfirmationRequest)
+//@ spec func rqDeal(args []interface{}) requests.DKGProposalDealConfirmationRequest = args[0].(requests.DKGProposalDealConfirmationRequest)
+
+//@ func (*DKGProposalFSM).actionDealConfirmationReceived
+//@   safety C18
+//@   requires wfDkg(m) && injDkg(dkgQ(m.payload))
+//@   ensures[C05.count] err == nil ==> dkgCntOldQ(m.payload, internal.DealConfirmed) == old(dkgCnt(m.payload, internal.DealConfirmed)) + 1 && len(dkgQ(m.payload)) == old(len(dkgQ(m.payload)))
+//@   ensures[C05.phasekeep] err == nil && old(dkgPhaseOk(m.payload, internal.DealAwaitConfirmation, internal.DealConfirmed)) ==> dkgPhaseOk(m.payload, internal.DealAwaitConfirmation, internal.DealConfirmed) && !dkgAny(m.payload, internal.DealConfirmationError)
+//@   ensures[C05.reject,C18.reject] err != nil ==> dkgViewsSame(m)
+//@   ensures[C05.shape] outEvent == "" && response == nil
+//@   ensures[C05.once] err == nil ==> isDealReq(args) && old(rqDeal(args).ParticipantId in dkgQ(m.payload)) && old(dkgQ(m.payload)[rqDeal(args).ParticipantId].Status) == internal.DealAwaitConfirmation && dkgQ(m.payload)[rqDeal(args).ParticipantId].Status == internal.DealConfirmed
+//@   ensures[C05.data,C02.data] err == nil ==> len(rqDeal(args).Deal) > 0 && content(dkgQ(m.payload)[rqDeal(args).ParticipantId].DkgDeal) == old(content(rqDeal(args).Deal)) && fresh(dkgQ(m.payload)[rqDeal(args).ParticipantId].DkgDeal)
+//@   ensures[C05.keepdata] err == nil ==> dkgQ(m.payload)[rqDeal(args).ParticipantId].DkgCommit == old(dkgQ(m.payload)[rqDeal(args).ParticipantId].DkgCommit) && dkgQ(m.payload)[rqDeal(args).ParticipantId].DkgResponse == old(dkgQ(m.payload)[rqDeal(args).ParticipantId].DkgResponse) && dkgQ(m.payload)[rqDeal(args).ParticipantId].DkgMasterKey == old(dkgQ(m.payload)[rqDeal(args).ParticipantId].DkgMasterKey)
+//@   ensures[C05.frame,C10.frame] err == nil ==> dkgOthersSame(m, rqDeal(args).ParticipantId) && unchanged("[]byte")
+
+
+//@ func (*DKGProposalFSM).actionValidateDkgProposalAwaitDeals
+//@   safety C18
+//@   requires wfDkg(m) && dkgQ(m.payload) != nil && injDkg(dkgQ(m.payload))
+//@   ensures[C05.noerr] err == nil
+//@   ensures[C05.outs] outEvent == "" || outEvent == eventDKGDealsConfirmationCancelByTimeoutInternal || outEvent == eventDKGDealsConfirmationCancelByErrorInternal || outEvent == eventDKGDealsConfirmedInternal
+//@   ensures[C05.cancel.only] outEvent == eventDKGDealsConfirmationCancelByErrorInternal ==> old(dkgAny(m.payload, internal.DealConfirmationError))
+//@   ensures[C05.timeout] old(dkgExpired(m)) ==> outEvent == eventDKGDealsConfirmationCancelByTimeoutInternal && response == nil && dkgViewsSame(m)
+//@   ensures[C05.cancel] !old(dkgExpired(m)) && old(dkgAny(m.payload, internal.DealConfirmationError)) ==> outEvent == eventDKGDealsConfirmationCancelByErrorInternal && response == nil && dkgViewsSame(m)
+//@   ensures[C05.wait] !old(dkgExpired(m)) && !old(dkgAny(m.payload, internal.DealConfirmationError)) && old(dkgCnt(m.payload, internal.DealConfirmed)) < old(len(dkgQ(m.payload))) ==> outEvent == "" && response == nil && dkgViewsSame(m)
+//@   ensures[C05.advance] !old(dkgExpired(m)) && !old(dkgAny(m.payload, internal.DealConfirmationError)) && old(dkgCnt(m.payload, internal.DealConfirmed)) == old(len(dkgQ(m.payload))) ==> outEvent == eventDKGDealsConfirmedInternal
+//@   ensures[C05.advanced.status] outEvent == eventDKGDealsConfirmedInternal ==> (forall k int :: k in dkgQ(m.payload) ==> dkgQ(m.payload)[k].Status == internal.ResponseAwaitConfirmation)
+//@   ensures[C05.phasekeep] outEvent != eventDKGDealsConfirmedInternal && old(dkgPhaseOk(m.payload, internal.DealAwaitConfirmation, internal.DealConfirmed)) ==> dkgPhaseOk(m.payload, internal.DealAwaitConfirmation, internal.DealConfirmed)
+//@   ensures[C05.keep] unchanged("*internal.DumpedMachineStatePayload", "*internal.DKGConfirmation", "*internal.SignatureConfirmation", "map[int]*internal.DKGProposalParticipant", internal.DKGProposalParticipant.DkgCommit, internal.DKGProposalParticipant.DkgDeal, internal.DKGProposalParticipant.DkgResponse, internal.DKGProposalParticipant.DkgMasterKey, internal.DKGProposalParticipant.Error, internal.DKGProposalParticipant.Username, "[]byte")
+//@   loop 0 invariant isContainsError == (exists k int :: (k in $visited) && dkgQ(m.payload)[k].Status == internal.DealConfirmationError)
+//@   loop 0 invariant unconfirmedDealsParticipants == len(dkgQ(m.payload)) - cntSt($visited, vals(dkgQ(m.payload)), fieldmap(internal.DKGProposalParticipant.Status), internal.DealConfirmed)
+//@   loop 1 invariant forall k int :: k in $visited ==> dkgQ(m.payload)[k].Status == internal.ResponseAwaitConfirmation
+//@   loop 1 invariant unchanged("*internal.DumpedMachineStatePayload", "*internal.DKGConfirmation", "*internal.SignatureConfirmation", "map[int]*internal.DKGProposalParticipant", internal.DKGProposalParticipant.DkgCommit, internal.DKGProposalParticipant.DkgDeal, internal.DKGProposalParticipant.DkgResponse, internal.DKGProposalParticipant.DkgMasterKey, internal.DKGProposalParticipant.Error, internal.DKGProposalParticipant.Username, "[]byte")
+//@   ensures[C08.resp.ordered] outEvent == eventDKGDealsConfirmedInternal ==> istype(response, responses.DKGProposalDealParticipantResponse) && len(response.(responses.DKGProposalDealParticipantResponse)) <= len(dkgQ(m.payload)) && (forall a int, b int :: 0 <= a && a < b && b < len(response.(responses.DKGProposalDealParticipantResponse)) ==> response.(responses.DKGProposalDealParticipantResponse)[a].ParticipantId < response.(responses.DKGProposalDealParticipantResponse)[b].ParticipantId)
+//@   loop 2 invariant len(responseData) <= $i + 1 && len($range) == len(dkgQ(m.payload))
+//@   loop 2 invariant forall a int :: 0 <= a && a < len(responseData) ==> responseData[a] != nil && ($i >= 0 && responseData[a].ParticipantId <= $range[$i].ParticipantID)
+//@   loop 2 invariant forall a int, b int :: 0 <= a && a < b && b < len(responseData) ==> responseData[a].ParticipantId < responseData[b].ParticipantId
+//@   loop 2 invariant forall a int, b int :: 0 <= a && a < b && b < len($range) ==> $range[a].ParticipantID < $range[b].ParticipantID
+//@   loop 2 invariant forall k int :: k in dkgQ(m.payload) ==> dkgQ(m.payload)[k].Status == internal.ResponseAwaitConfirmation
+//@   loop 2 invariant unchanged("*internal.DumpedMachineStatePayload", "*internal.DKGConfirmation", "*internal.SignatureConfirmation", "map[int]*internal.DKGProposalParticipant", internal.DKGProposalParticipant.DkgCommit, internal.DKGProposalParticipant.DkgDeal, internal.DKGProposalParticipant.DkgResponse, internal.DKGProposalParticipant.DkgMasterKey, internal.DKGProposalParticipant.Error, internal.DKGProposalParticipant.Username, "[]byte")
+
+
+// ---- phase: Response
+//@ spec func isResponseReq(args []interface{}) bool = len(args) == 1 && istype(args[0], requests.DKGProposalResponseConfirmationRequest)
+//@ spec func rqResponse(args []interface{}) requests.DKGProposalResponseConfirmationRequest = args[0].(requests.DKGProposalResponseConfirmationRequest)
+
+//@ func (*DKGProposalFSM).actionResponseConfirmationReceived
+//@   safety C18
+//@   requires wfDkg(m) && injDkg(dkgQ(m.payload))
+//@   ensures[C05.count] err == nil ==> dkgCntOldQ(m.payload, internal.ResponseConfirmed) == old(dkgCnt(m.payload, internal.ResponseConfirmed)) + 1 && len(dkgQ(m.payload)) == old(len(dkgQ(m.payload)))
+//@   ensures[C05.phasekeep] err == nil && old(dkgPhaseOk(m.payload, internal.ResponseAwaitConfirmation, internal.ResponseConfirmed)) ==> dkgPhaseOk(m.payload, internal.ResponseAwaitConfirmation, internal.ResponseConfirmed) && !dkgAny(m.payload, internal.ResponseConfirmationError)
+//@   ensures[C05.reject,C18.reject] err != nil ==> dkgViewsSame(m)
+//@   ensures[C05.shape] outEvent == "" && response == nil
+//@   ensures[C05.once] err == nil ==> isResponseReq(args) && old(rqResponse(args).ParticipantId in dkgQ(m.payload)) && old(dkgQ(m.payload)[rqResponse(args).ParticipantId].Status) == internal.ResponseAwaitConfirmation && dkgQ(m.payload)[rqResponse(args).ParticipantId].Status == internal.ResponseConfirmed
+//@   ensures[C05.data,C02.data] err == nil ==> len(rqResponse(args).Response) > 0 && content(dkgQ(m.payload)[rqResponse(args).ParticipantId].DkgResponse) == old(content(rqResponse(args).Response)) && fresh(dkgQ(m.payload)[rqResponse(args).ParticipantId].DkgResponse)
+//@   ensures[C05.keepdata] err == nil ==> dkgQ(m.payload)[rqResponse(args).ParticipantId].DkgCommit == old(dkgQ(m.payload)[rqResponse(args).ParticipantId].DkgCommit) && dkgQ(m.payload)[rqResponse(args).ParticipantId].DkgDeal == old(dkgQ(m.payload)[rqResponse(args).ParticipantId].DkgDeal) && dkgQ(m.payload)[rqResponse(args).ParticipantId].DkgMasterKey == old(dkgQ(m.payload)[rqResponse(args).ParticipantId].DkgMasterKey)
+//@   ensures[C05.frame,C10.frame] err == nil ==> dkgOthersSame(m, rqResponse(args).ParticipantId) && unchanged("[]byte")
+
+
+//@ func (*DKGProposalFSM).actionValidateDkgProposalAwaitResponses
+//@   safety C18
+//@   requires wfDkg(m) && dkgQ(m.payload) != nil && injDkg(dkgQ(m.payload))
+//@   ensures[C05.noerr] err == nil
+//@   ensures[C05.outs] outEvent == "" || outEvent == eventDKGResponseConfirmationCancelByTimeoutInternal || outEvent == eventDKGResponseConfirmationCancelByErrorInternal || outEvent == eventDKGResponsesConfirmedInternal
+//@   ensures[C05.cancel.only] outEvent == eventDKGResponseConfirmationCancelByErrorInternal ==> old(dkgAny(m.payload, internal.ResponseConfirmationError))
+//@   ensures[C05.timeout] old(dkgExpired(m)) ==> outEvent == eventDKGResponseConfirmationCancelByTimeoutInternal && response == nil && dkgViewsSame(m)
+//@   ensures[C05.cancel] !old(dkgExpired(m)) && old(dkgAny(m.payload, internal.ResponseConfirmationError)) ==> outEvent == eventDKGResponseConfirmationCancelByErrorInternal && response == nil && dkgViewsSame(m)
+//@   ensures[C05.wait] !old(dkgExpired(m)) && !old(dkgAny(m.payload, internal.ResponseConfirmationError)) && old(dkgCnt(m.payload, internal.ResponseConfirmed)) < old(len(dkgQ(m.payload))) ==> outEvent == "" && response == nil && dkgViewsSame(m)
+//@   ensures[C05.advance] !old(dkgExpired(m)) && !old(dkgAny(m.payload, internal.ResponseConfirmationError)) && old(dkgCnt(m.payload, internal.ResponseConfirmed)) == old(len(dkgQ(m.payload))) ==> outEvent == eventDKGResponsesConfirmedInternal
+//@   ensures[C05.advanced.status] outEvent == eventDKGResponsesConfirmedInternal ==> (forall k int :: k in dkgQ(m.payload) ==> dkgQ(m.payload)[k].Status == internal.MasterKeyAwaitConfirmation)
+//@   ensures[C05.phasekeep] outEvent != eventDKGResponsesConfirmedInternal && old(dkgPhaseOk(m.payload, internal.ResponseAwaitConfirmation, internal.ResponseConfirmed)) ==> dkgPhaseOk(m.payload, internal.ResponseAwaitConfirmation, internal.ResponseConfirmed)
+//@   ensures[C05.keep] unchanged("*internal.DumpedMachineStatePayload", "*internal.DKGConfirmation", "*internal.SignatureConfirmation", "map[int]*internal.DKGProposalParticipant", internal.DKGProposalParticipant.DkgCommit, internal.DKGProposalParticipant.DkgDeal, internal.DKGProposalParticipant.DkgResponse, internal.DKGProposalParticipant.DkgMasterKey, internal.DKGProposalParticipant.Error, internal.DKGProposalParticipant.Username, "[]byte")
+//@   loop 0 invariant isContainsError == (exists k int :: (k in $visited) && dkgQ(m.payload)[k].Status == internal.ResponseConfirmationError)
+//@   loop 0 invariant unconfirmedParticipants == len(dkgQ(m.payload)) - cntSt($visited, vals(dkgQ(m.payload)), fieldmap(internal.DKGProposalParticipant.Status), internal.ResponseConfirmed)
+//@   loop 1 invariant forall k int :: k in $visited ==> dkgQ(m.payload)[k].Status == internal.MasterKeyAwaitConfirmation
+//@   loop 1 invariant unchanged("*internal.DumpedMachineStatePayload", "*internal.DKGConfirmation", "*internal.SignatureConfirmation", "map[int]*internal.DKGProposalParticipant", internal.DKGProposalParticipant.DkgCommit, internal.DKGProposalParticipant.DkgDeal, internal.DKGProposalParticipant.DkgResponse, internal.DKGProposalParticipant.DkgMasterKey, internal.DKGProposalParticipant.Error, internal.DKGProposalParticipant.Username, "[]byte")
+//@   ensures[C08.resp.ordered] outEvent == eventDKGResponsesConfirmedInternal ==> istype(response, responses.DKGProposalResponseParticipantResponse) && len(response.(responses.DKGProposalResponseParticipantResponse)) <= len(dkgQ(m.payload)) && (forall a int, b int :: 0 <= a && a < b && b < len(response.(responses.DKGProposalResponseParticipantResponse)) ==> response.(responses.DKGProposalResponseParticipantResponse)[a].ParticipantId < response.(responses.DKGProposalResponseParticipantResponse)[b].ParticipantId)
+//@   loop 2 invariant len(responseData) <= $i + 1 && len($range) == len(dkgQ(m.payload))
+//@   loop 2 invariant forall a int :: 0 <= a && a < len(responseData) ==> responseData[a] != nil && ($i >= 0 && responseData[a].ParticipantId <= $range[$i].ParticipantID)
+//@   loop 2 invariant forall a int, b int :: 0 <= a && a < b && b < len(responseData) ==> responseData[a].ParticipantId < responseData[b].ParticipantId
+//@   loop 2 invariant forall a int, b int :: 0 <= a && a < b && b < len($range) ==> $range[a].ParticipantID < $range[b].ParticipantID
+//@   loop 2 invariant forall k int :: k in dkgQ(m.payload) ==> dkgQ(m.payload)[k].Status == internal.MasterKeyAwaitConfirmation
+//@   loop 2 invariant unchanged("*internal.DumpedMachineStatePayload", "*internal.DKGConfirmation", "*internal.SignatureConfirmation", "map[int]*internal.DKGProposalParticipant", internal.DKGProposalParticipant.DkgCommit, internal.DKGProposalParticipant.DkgDeal, internal.DKGProposalParticipant.DkgResponse, internal.DKGProposalParticipant.DkgMasterKey, internal.DKGProposalParticipant.Error, internal.DKGProposalParticipant.Username, "[]byte")
+
+
+// ---- phase: MasterKey
+//@ spec func isMasterKeyReq(args []interface{}) bool = len(args) == 1 && istype(args[0], requests.DKGProposalMasterKeyConfirmationRequest)
+//@ spec func rqMasterKey(args []interface{}) requests.DKGProposalMasterKeyConfirmationRequest = args[0].(requests.DKGProposalMasterKeyConfirmationRequest)
+
+//@ func (*DKGProposalFSM).actionMasterKeyConfirmationReceived
+//@   safety C18
+//@   requires wfDkg(m) && injDkg(dkgQ(m.payload))
+//@   ensures[C05.count] err == nil ==> dkgCntOldQ(m.payload, internal.MasterKeyConfirmed) == old(dkgCnt(m.payload, internal.MasterKeyConfirmed)) + 1 && len(dkgQ(m.payload)) == old(len(dkgQ(m.payload)))
+//@   ensures[C05.phasekeep] err == nil && old(dkgPhaseOk(m.payload, internal.MasterKeyAwaitConfirmation, internal.MasterKeyConfirmed)) ==> dkgPhaseOk(m.payload, internal.MasterKeyAwaitConfirmation, internal.MasterKeyConfirmed) && !dkgAny(m.payload, internal.MasterKeyConfirmationError)
+//@   ensures[C05.reject,C18.reject] err != nil ==> dkgViewsSame(m)
+//@   ensures[C05.shape] outEvent == "" && response == nil
+//@   ensures[C05.once] err == nil ==> isMasterKeyReq(args) && old(rqMasterKey(args).ParticipantId in dkgQ(m.payload)) && old(dkgQ(m.payload)[rqMasterKey(args).ParticipantId].Status) == internal.MasterKeyAwaitConfirmation && dkgQ(m.payload)[rqMasterKey(args).ParticipantId].Status == internal.MasterKeyConfirmed
+//@   ensures[C05.data,C02.data] err == nil ==> len(rqMasterKey(args).MasterKey) > 0 && content(dkgQ(m.payload)[rqMasterKey(args).ParticipantId].DkgMasterKey) == old(content(rqMasterKey(args).MasterKey)) && fresh(dkgQ(m.payload)[rqMasterKey(args).ParticipantId].DkgMasterKey)
+//@   ensures[C05.keepdata] err == nil ==> dkgQ(m.payload)[rqMasterKey(args).ParticipantId].DkgCommit == old(dkgQ(m.payload)[rqMasterKey(args).ParticipantId].DkgCommit) && dkgQ(m.payload)[rqMasterKey(args).ParticipantId].DkgDeal == old(dkgQ(m.payload)[rqMasterKey(args).ParticipantId].DkgDeal) && dkgQ(m.payload)[rqMasterKey(args).ParticipantId].DkgResponse == old(dkgQ(m.payload)[rqMasterKey(args).ParticipantId].DkgResponse)
+//@   ensures[C05.frame,C10.frame] err == nil ==> dkgOthersSame(m, rqMasterKey(args).ParticipantId) && unchanged("[]byte")
+
+// the public polynomial the node keeps for reconstruction: an announcement that carries one is accepted only if it
+// repeats what was announced before, and an accepted announcement never replaces a polynomial already kept
+//@   ensures[C02.pubpoly] err == nil && old(len(dp(m).PubPolyBz)) > 0 && len(rqMasterKey(args).PubPolyBz) > 0 ==> old(content(dp(m).PubPolyBz)) == old(content(rqMasterKey(args).PubPolyBz))
+//@   ensures[C02.pubpoly] err == nil && old(len(dp(m).PubPolyBz)) > 0 ==> content(dp(m).PubPolyBz) == old(content(dp(m).PubPolyBz))
+
+
+//@ func (*DKGProposalFSM).actionValidateDkgProposalAwaitMasterKey
+//@   safety C18
+//@   requires wfDkg(m) && dkgQ(m.payload) != nil && injDkg(dkgQ(m.payload))
+//@   ensures[C05.noerr] err == nil
+//@   ensures[C05.outs] outEvent == "" || outEvent == eventDKGMasterKeyConfirmationCancelByTimeoutInternal || outEvent == eventDKGMasterKeyConfirmationCancelByErrorInternal || outEvent == eventDKGMasterKeyConfirmedInternal
+//@   ensures[C05.timeout] old(dkgExpired(m)) ==> outEvent == eventDKGMasterKeyConfirmationCancelByTimeoutInternal && response == nil && dkgViewsSame(m)
+//@   ensures[C05.cancel] !old(dkgExpired(m)) && old(dkgAny(m.payload, internal.MasterKeyConfirmationError)) ==> outEvent == eventDKGMasterKeyConfirmationCancelByErrorInternal && response == nil
+
+// ---- the master-key validator: all announced group keys must agree
+//@ spec func mkOf(m *DKGProposalFSM, k int) []byte = dkgQ(m.payload)[k].DkgMasterKey
+//@ spec func sameKey(a []byte, b []byte) bool = content(a) == content(b) && ((a == nil) == (b == nil))
+//@   loop 0 invariant isContainsError == (exists k int :: (k in $visited) && dkgQ(m.payload)[k].Status == internal.MasterKeyConfirmationError)
+//@   loop 0 invariant unconfirmedParticipants == len(dkgQ(m.payload)) - cntSt($visited, vals(dkgQ(m.payload)), fieldmap(internal.DKGProposalParticipant.Status), internal.MasterKeyConfirmed)
+//@   loop 0 invariant forall k int :: (k in $visited) && dkgQ(m.payload)[k].Status == internal.MasterKeyConfirmed ==> (exists i int :: 0 <= i && i < len(masterKeys) && masterKeys[i] == mkOf(m, k))
+//@   loop 0 invariant forall i int :: 0 <= i && i < len(masterKeys) ==> (exists k int :: (k in $visited) && dkgQ(m.payload)[k].Status == internal.MasterKeyConfirmed && masterKeys[i] == mkOf(m, k))
+//@   loop 0 invariant len(masterKeys) == 0 || fresh(masterKeys)
+//@   loop 1 invariant forall j int :: 0 <= j && j <= $i ==> sameKey(masterKeys[j], masterKeys[0])
+//@   loop 1 invariant dkgViewsSame(m)
+//@   loop 2 invariant forall k int :: k in $visited ==> dkgQ(m.payload)[k].Status == internal.MasterKeyConfirmationError
+//@   loop 2 invariant unchanged("*internal.DumpedMachineStatePayload", "*internal.DKGConfirmation", "*internal.SignatureConfirmation", "map[int]*internal.DKGProposalParticipant", internal.DKGProposalParticipant.DkgCommit, internal.DKGProposalParticipant.DkgDeal, internal.DKGProposalParticipant.DkgResponse, internal.DKGProposalParticipant.DkgMasterKey, internal.DKGProposalParticipant.Username, "[]byte")
+//@   loop 3 invariant forall k int :: k in $visited ==> dkgQ(m.payload)[k].Status == internal.MasterKeyConfirmed
+//@   loop 3 invariant unchanged("*internal.DumpedMachineStatePayload", "*internal.DKGConfirmation", "*internal.SignatureConfirmation", "map[int]*internal.DKGProposalParticipant", internal.DKGProposalParticipant.DkgCommit, internal.DKGProposalParticipant.DkgDeal, internal.DKGProposalParticipant.DkgResponse, internal.DKGProposalParticipant.DkgMasterKey, internal.DKGProposalParticipant.Error, internal.DKGProposalParticipant.Username, "[]byte")
+//@   ensures[C05.mkmismatch,C02.mismatch] !old(dkgExpired(m)) && !old(dkgAny(m.payload, internal.MasterKeyConfirmationError)) && old(exists a int, b int :: (a in dkgQ(m.payload)) && (b in dkgQ(m.payload)) && dkgQ(m.payload)[a].Status == internal.MasterKeyConfirmed && dkgQ(m.payload)[b].Status == internal.MasterKeyConfirmed && !sameKey(mkOf(m, a), mkOf(m, b))) ==> outEvent == eventDKGMasterKeyConfirmationCancelByErrorInternal && (forall k int :: k in dkgQ(m.payload) ==> dkgQ(m.payload)[k].Status == internal.MasterKeyConfirmationError)
+//@   ensures[C05.outs] outEvent == "" || outEvent == eventDKGMasterKeyConfirmationCancelByTimeoutInternal || outEvent == eventDKGMasterKeyConfirmationCancelByErrorInternal || outEvent == eventDKGMasterKeyConfirmedInternal
+//@   ensures[C05.phasekeep] outEvent == "" && old(dkgPhaseOk(m.payload, internal.MasterKeyAwaitConfirmation, internal.MasterKeyConfirmed)) ==> dkgPhaseOk(m.payload, internal.MasterKeyAwaitConfirmation, internal.MasterKeyConfirmed)
+//@   ensures[C05.mkwait.same] outEvent == "" ==> dkgViewsSame(m)
+//@   ensures[C05.mkwait] !old(dkgExpired(m)) && !old(dkgAny(m.payload, internal.MasterKeyConfirmationError)) && outEvent == "" ==> old(dkgCnt(m.payload, internal.MasterKeyConfirmed)) < old(len(dkgQ(m.payload))) && dkgViewsSame(m)
+//@   ensures[C05.advance] !old(dkgExpired(m)) && !old(dkgAny(m.payload, internal.MasterKeyConfirmationError)) && old(dkgCnt(m.payload, internal.MasterKeyConfirmed)) == old(len(dkgQ(m.payload))) && old(forall a int, b int :: (a in dkgQ(m.payload)) && (b in dkgQ(m.payload)) ==> sameKey(mkOf(m, a), mkOf(m, b))) ==> outEvent == eventDKGMasterKeyConfirmedInternal
+//@   ensures[C02.agree,C05.mkagree] outEvent == eventDKGMasterKeyConfirmedInternal ==> old(dkgCnt(m.payload, internal.MasterKeyConfirmed)) == old(len(dkgQ(m.payload))) && (forall a int, b int :: (a in dkgQ(m.payload)) && (b in dkgQ(m.payload)) ==> sameKey(mkOf(m, a), mkOf(m, b)))
+//@   ensures[C05.keep] response == nil && unchanged("*internal.DumpedMachineStatePayload", "*internal.DKGConfirmation", "*internal.SignatureConfirmation", "map[int]*internal.DKGProposalParticipant", internal.DKGProposalParticipant.DkgCommit, internal.DKGProposalParticipant.DkgDeal, internal.DKGProposalParticipant.DkgResponse, internal.DKGProposalParticipant.DkgMasterKey, internal.DKGProposalParticipant.Username, "[]byte")
+
+
+// ---- error reports: the phase's error event turns an awaiting participant into its error status
+//@ spec func isDkgErrReq(args []interface{}) bool = len(args) == 1 && istype(args[0], requests.DKGProposalConfirmationErrorRequest)
+//@ spec func rqDkgErr(args []interface{}) requests.DKGProposalConfirmationErrorRequest = args[0].(requests.DKGProposalConfirmationErrorRequest)
+//@ spec func errPhase(ev fsm.Event, before internal.DKGParticipantStatus, after internal.DKGParticipantStatus) bool = (ev == EventDKGCommitConfirmationError && before == internal.CommitAwaitConfirmation && after == internal.CommitConfirmationError) || (ev == EventDKGDealConfirmationError && before == internal.DealAwaitConfirmation && after == internal.DealConfirmationError) || (ev == EventDKGResponseConfirmationError && before == internal.ResponseAwaitConfirmation && after == internal.ResponseConfirmationError) || (ev == EventDKGMasterKeyConfirmationError && before == internal.MasterKeyAwaitConfirmation && after == internal.MasterKeyConfirmationError)
+
+//@ func (*DKGProposalFSM).actionConfirmationError
+//@   safety C18
+//@   requires wfDkg(m)
+//@   ensures[C05.reject,C18.reject] err != nil ==> dkgViewsSame(m)
+//@   ensures[C05.shape] outEvent == "" && response == nil
+//@   ensures[C05.errreport] err == nil ==> isDkgErrReq(args) && old(rqDkgErr(args).ParticipantId in dkgQ(m.payload)) && errPhase(inEvent, old(dkgQ(m.payload)[rqDkgErr(args).ParticipantId].Status), dkgQ(m.payload)[rqDkgErr(args).ParticipantId].Status) && dkgQ(m.payload)[rqDkgErr(args).ParticipantId].Error == rqDkgErr(args).Error && rqDkgErr(args).Error != nil
+//@   ensures[C05.frame,C10.frame] err == nil ==> dkgOthersSame(m, rqDkgErr(args).ParticipantId) && unchanged("[]byte", internal.DKGProposalParticipant.DkgCommit, internal.DKGProposalParticipant.DkgDeal, internal.DKGProposalParticipant.DkgResponse, internal.DKGProposalParticipant.DkgMasterKey)
+
+// ---- start of the DKG: one awaiting record per invited participant
+//@ func (*DKGProposalFSM).actionInitDKGProposal
+//@   safety C18
+//@   requires m != nil && m.payload != nil && wfSigQ(m.payload) && (0 in sigQ(m.payload)) && injSig(sigQ(m.payload))
+//@   requires m.payload.DKGProposalPayload != nil ==> wfDkgQ(m.payload)
+//@   ensures[C05.initnoop] old(m.payload.DKGProposalPayload) != nil ==> err == nil && outEvent == "" && response == nil && dkgViewsSame(m)
+//@   ensures[C05.reject,C18.reject] err != nil ==> dkgViewsSame(m)
+//@   ensures[C05.initdkg] old(m.payload.DKGProposalPayload) == nil && err == nil ==> outEvent == inEvent && dp(m) != nil && fresh(dp(m)) && dkgQ(m.payload) != nil && dom(dkgQ(m.payload)) == old(dom(sigQ(m.payload))) && (forall k int :: k in dkgQ(m.payload) ==> dkgQ(m.payload)[k] != nil && dkgQ(m.payload)[k].Status == internal.CommitAwaitConfirmation && dkgQ(m.payload)[k].Username == old(sigQ(m.payload)[k].Username) && dkgQ(m.payload)[k].Error == nil)
+//@   ensures[C05.initdkg.inj] old(m.payload.DKGProposalPayload) == nil && err == nil ==> injDkg(dkgQ(m.payload)) && dkgPhaseOk(m.payload, internal.CommitAwaitConfirmation, internal.CommitConfirmed) && !dkgAny(m.payload, internal.CommitConfirmationError) && wfDkgQ(m.payload)
+//@   ensures[C05.keep] unchanged("*internal.SignatureConfirmation", "*internal.SignatureProposalParticipant", "map[int]*internal.SignatureProposalParticipant") && m.payload.Threshold == old(m.payload.Threshold) && m.payload.SigningProposalPayload == old(m.payload.SigningProposalPayload) && m.payload.SignatureProposalPayload == old(m.payload.SignatureProposalPayload)
+//@   loop 0 invariant dp(m) != nil && fresh(dp(m)) && dkgQ(m.payload) != nil && fresh(dkgQ(m.payload))
+//@   loop 0 invariant dom(dkgQ(m.payload)) == $visited
+//@   loop 0 invariant forall k int :: k in $visited ==> dkgQ(m.payload)[k] != nil && fresh(dkgQ(m.payload)[k]) && allocated(dkgQ(m.payload)[k]) && dkgQ(m.payload)[k].Status == internal.CommitAwaitConfirmation && dkgQ(m.payload)[k].Username == old(sigQ(m.payload)[k].Username) && dkgQ(m.payload)[k].Error == nil
+//@   loop 0 invariant forall a int, b int :: (a in $visited) && (b in $visited) && a != b ==> dkgQ(m.payload)[a] != dkgQ(m.payload)[b]
+//@   loop 0 invariant unchanged("*internal.SignatureConfirmation", "*internal.SignatureProposalParticipant", "map[int]*internal.SignatureProposalParticipant", "*internal.DumpedMachineStatePayload") || true
+//@   loop 0 invariant m.payload.Threshold == old(m.payload.Threshold) && m.payload.SigningProposalPayload == old(m.payload.SigningProposalPayload) && m.payload.SignatureProposalPayload == old(m.payload.SignatureProposalPayload) && m.payload == old(m.payload)
+//@   loop 0 invariant unchanged("*internal.SignatureConfirmation", "*internal.SignatureProposalParticipant", "map[int]*internal.SignatureProposalParticipant")
+//@   loop 0 invariant forall q *internal.DKGProposalParticipant :: q.Status == old(q.Status) && q.Error == old(q.Error) && q.Username == old(q.Username) && q.DkgCommit == old(q.DkgCommit) && q.DkgDeal == old(q.DkgDeal) && q.DkgResponse == old(q.DkgResponse) && q.DkgMasterKey == old(q.DkgMasterKey) && q.DkgPubKey == old(q.DkgPubKey)
+//@   loop 1 invariant dp(m) != nil && fresh(dp(m)) && dkgQ(m.payload) != nil && dom(dkgQ(m.payload)) == old(dom(sigQ(m.payload)))
+//@   loop 1 invariant forall k int :: k in dkgQ(m.payload) ==> dkgQ(m.payload)[k] != nil && dkgQ(m.payload)[k].Status == internal.CommitAwaitConfirmation && dkgQ(m.payload)[k].Username == old(sigQ(m.payload)[k].Username) && dkgQ(m.payload)[k].Error == nil
+//@   loop 1 invariant m.payload.Threshold == old(m.payload.Threshold) && m.payload.SigningProposalPayload == old(m.payload.SigningProposalPayload) && m.payload.SignatureProposalPayload == old(m.payload.SignatureProposalPayload) && m.payload == old(m.payload)
+//@   loop 1 invariant unchanged("*internal.SignatureConfirmation", "*internal.SignatureProposalParticipant", "map[int]*internal.SignatureProposalParticipant")
+//@   loop 1 invariant forall q *internal.DKGProposalParticipant :: q.Status == old(q.Status) && q.Error == old(q.Error) && q.Username == old(q.Username) && q.DkgCommit == old(q.DkgCommit) && q.DkgDeal == old(q.DkgDeal) && q.DkgResponse == old(q.DkgResponse) && q.DkgMasterKey == old(q.DkgMasterKey) && q.DkgPubKey == old(q.DkgPubKey)
+
